@@ -665,8 +665,10 @@ pub fn run_c09(scn: &C09Scn, st: &mut Stats) -> RunResult {
             let fresh = (first && s.seam.reads > 0) || (s.seam.seeks > 0 && matches!(s.out, Out::SeekOk));
             if fresh {
                 if let Some(req) = s.seam.first_req {
-                    if req != cap && s.seam.grows.is_empty() {
-                        v.push(Violation::new("C09.capacity_adopted", format!("{:?}: a fill of the empty buffer requested {} bytes but the capacity granted so far is {}", s.op, req, cap)));
+                    // only "more than granted" is a violation: how a reader splits a fill into read
+                    // calls is its own business, but it must not own more space than the policy allowed
+                    if req > cap && s.seam.grows.is_empty() {
+                        v.push(Violation::new("C09.capacity_adopted", format!("{:?}: a fill of the empty buffer requested {} bytes but the capacity granted so far is only {}", s.op, req, cap)));
                         break;
                     }
                 }
